@@ -10,6 +10,9 @@ import (
 	"sync"
 )
 
+// MaxChoices bounds one run (a safety net against harness loops that never terminate).
+const MaxChoices = 6000000
+
 type Rec struct {
 	Label string `json:"l"`
 	N     int    `json:"n"`
@@ -59,6 +62,9 @@ func (s *Stream) Choose(label string, n int) int {
 		v = s.rng.IntN(n)
 	}
 	s.pos++
+	if s.pos > MaxChoices {
+		panic("choice stream exhausted: more than MaxChoices choices in one run (a harness loop that does not terminate under replay?)")
+	}
 	r := Rec{N: n, V: v}
 	if s.KeepLabels {
 		r.Label = label
